@@ -643,6 +643,7 @@ func depthSweep(maxK int) *core.Family {
 		Desc:     fmt.Sprintf("nesting depth 2^k, k = 0..%d, for %d recursive constructs (parentheses, unary stacks, sets, records, member chains, if, operator chains, JSON nodes, JSON values, Set<Set<..>> in schema text and JSON), each in its own worker process", maxK, len(nests)),
 		N:        int64(len(nests) * perNest),
 		Isolated: true,
+		CrashClass: func(i int64) string { return nests[int(i)/perNest].name },
 		Run: func(t *core.T, i int64) {
 			n := nests[int(i)/perNest]
 			k := int(i) % perNest
